@@ -10,7 +10,17 @@ cd $W
 demo() { if [ -f "$D/demo.py" ]; then timeout 300 python3 "$D/demo.py" "$W" >/dev/null 2>&1; echo $?; else echo "nodemo"; fi; }
 git apply "$D/patch.diff" || { echo "patch does not apply"; exit 2; }
 cargo build --offline >/dev/null 2>&1 || { echo "mutant does not build"; }
-T=$(cargo test --workspace --no-fail-fast --offline 2>&1 | grep "^test result" | awk '{p+=$4; f+=$6} END {print p" passed "f" failed"}')
+OUT=$(cargo test --workspace --no-fail-fast --offline 2>&1)
+T=$(echo "$OUT" | grep "^test result" | awk '{p+=$4; f+=$6} END {print p" passed "f" failed"}')
+# timing-sensitive tests (1 ms TTL, Lua loop under 100 ms) fail spuriously on a loaded machine: re-run each failed test alone
+FAILED=$(echo "$OUT" | grep -E "^test .* \.\.\. FAILED" | awk '{print $2}' | sort -u)
+STILL=""
+for t in $FAILED; do
+  ok=0
+  for i in 1 2 3 4 5; do if cargo test --offline "$t" 2>&1 | grep -q "test result: ok. [1-9]"; then ok=1; break; fi; done
+  [ $ok = 1 ] || STILL="$STILL $t"
+done
+if [ -n "$FAILED" ]; then T="$T (failed in the full run: $(echo $FAILED | tr '\n' ' '); still failing when re-run alone:${STILL:- none})"; fi
 DM=$(demo)
 git checkout -- . ; cargo build --offline >/dev/null 2>&1
 DB=$(demo)
